@@ -7,3 +7,24 @@ func TestOCSPHelpersSelfTest(t *testing.T) {
 		t.Fatal(err)
 	}
 }
+
+// every copy mask can be built for every kind of signer
+func TestOCSPForgeAllMasks(t *testing.T) {
+	pool, err := OCSPGetPool()
+	if err != nil {
+		t.Fatal(err)
+	}
+	ak := pool.AttackerKeys()
+	for mask := 0; mask <= OCSPCopyAll; mask++ {
+		for i, by := range []string{"self", "ca", "issuer"} {
+			target := 1 + mask%2*3 // CA 1 and 4 (P-256, cheap)
+			f, err := pool.Forge(OCSPForgeSpec{Target: target, Copy: mask, By: by, ByCA: 2, Key: ak[(mask+i)%len(ak)].ID})
+			if err != nil {
+				t.Fatalf("mask %s by %s: %v", OCSPCopyLabel(mask), by, err)
+			}
+			if OCSPVerify(f.Cert.SignatureAlgorithm, pool.CAs[target].Cert.PublicKey, f.Cert.RawTBSCertificate, f.Cert.Signature) != (by == "issuer") {
+				t.Fatalf("mask %s by %s: wrong verification under the target", OCSPCopyLabel(mask), by)
+			}
+		}
+	}
+}
